@@ -8,15 +8,15 @@ side). A public callable without an entry is reported as uncovered in the eviden
 import importlib
 
 # heap categories -> what lives there (shapes depend on the plan-level sizes N (image side), M (vector length), K (stack depth))
-CATS = ("img2d", "img3d", "cplx2d", "vec_inc", "vec_pos", "mask2d", "pos", "sep", "slopes3", "frames", "cov32", "r32")
+CATS = ("img2d", "img3d", "cplx2d", "cplx3d", "vec_inc", "vec_pos", "mask2d", "pos", "sep", "slopes3", "frames", "cov32", "r32")
 
 ENTRIES = []
 BY_NAME = {}
 
 
-def E(name, arrays=(), scalars=None, call=None, batch=None, random=False, note=None):
+def E(name, arrays=(), scalars=None, call=None, batch=None, random=False, note=None, weight=1.0):
     e = {"name": name, "arrays": list(arrays), "scalars": scalars or (lambda r, z: {}), "call": call, "batch": batch,
-         "random": random, "note": note}
+         "random": random, "note": note, "weight": weight}
     ENTRIES.append(e)
     BY_NAME[name] = e
     return e
@@ -49,7 +49,7 @@ for _n in ("ft", "ift", "rft"):
 E("aotools.fouriertransform.irft", [("data", ["vec_pos", "cplx2d", "img2d"])], lambda r, z: {"d": r.choice([1.0, 0.1])},
   lambda f, A, S: f(A["data"], S["d"]), batch={"param": "data", "cat": "img2d", "item": lambda res, k: res[k]})
 for _n in ("ft2", "ift2", "rft2"):
-    E("aotools.fouriertransform." + _n, [("data", ["img2d", "cplx2d", "img3d", "mask2d"])], lambda r, z: {"d": r.choice([1.0, 0.1, 0.37])},
+    E("aotools.fouriertransform." + _n, [("data", ["img2d", "cplx2d", "img3d", "mask2d", "cplx3d"])], lambda r, z: {"d": r.choice([1.0, 0.1, 0.37])},
       lambda f, A, S: f(A["data"], S["d"]),
       batch={"param": "data", "cat": "img3d", "item": lambda res, k: res[k]})
 E("aotools.fouriertransform.irft2", [("data", ["cplx2d", "img2d", "img3d"])], lambda r, z: {"d": r.choice([1.0, 0.1])},
@@ -81,7 +81,7 @@ E("aotools.functions.karhunenLoeve.stf_vonKarman", [("r", ["vec_pos", "img2d"])]
   lambda f, A, S: f(A["r"], S["L0"]))
 E("aotools.functions.karhunenLoeve.stf_vonKarman_yao", [("r", ["vec_pos", "img2d"])], lambda r, z: {"L0": r.choice([10.0, 25.0])},
   lambda f, A, S: f(A["r"], S["L0"]))
-E("aotools.functions.karhunenLoeve.rebin", [("a", ["img2d", "mask2d"])], lambda r, z: {"shape": [z["N"] // 2, z["N"] // 2]},
+E("aotools.functions.karhunenLoeve.rebin", [("a", ["img2d", "mask2d", "cplx2d"])], lambda r, z: {"shape": [z["N"] // 2, z["N"] // 2]},
   lambda f, A, S: f(A["a"], S["shape"]))
 E("aotools.functions.karhunenLoeve.gkl_radii", [], lambda r, z: {"ri": r.choice([0.0, 0.25]), "nr": r.choice([6, 10])}, lambda f, A, S: f(S["ri"], S["nr"]))
 E("aotools.functions.karhunenLoeve.radii", [], lambda r, z: {"nr": 6, "npp": 12, "ri": r.choice([0.0, 0.25])}, lambda f, A, S: f(S["nr"], S["npp"], S["ri"]))
@@ -93,33 +93,33 @@ E("aotools.functions.karhunenLoeve.gkl_kernel", [], lambda r, z: {"ri": 0.0, "nr
 E("aotools.functions.karhunenLoeve.gkl_basis", [], lambda r, z: {"ri": r.choice([0.0, 0.2]), "nr": 8, "nfunc": 6},
   lambda f, A, S: sorted((k, v) for k, v in f(S["ri"], S["nr"], None, S["nfunc"], "kolmogorov").items()))
 E("aotools.functions.karhunenLoeve.make_kl", [], lambda r, z: {"nmax": r.choice([3, 5]), "dim": 12, "ri": r.choice([0.0, 0.2]), "mask": r.choice([True, False])},
-  lambda f, A, S: f(S["nmax"], S["dim"], S["ri"], 10, "kolmogorov", None, S["mask"])[:3])
+  lambda f, A, S: f(S["nmax"], S["dim"], S["ri"], 10, "kolmogorov", None, S["mask"])[:3], weight=2.0)
 
 # ---- image processing -------------------------------------------------------------------------------------------------
-E("aotools.image_processing.centroiders.centre_of_gravity", [("img", ["img2d", "img3d", "mask2d"])],
+E("aotools.image_processing.centroiders.centre_of_gravity", [("img", ["img2d", "img3d", "mask2d", "cplx2d"])],
   lambda r, z: {"threshold": r.choice([0, 0, 0.1, 0.5]), "min_threshold": r.choice([0, 0, 5.0])},
   lambda f, A, S: f(A["img"], S["threshold"], S["min_threshold"]),
   batch={"param": "img", "cat": "img3d", "item": lambda res, k: res[:, k], "tag": lambda S: "threshold!=0" if S["threshold"] else "threshold=0"})
 E("aotools.image_processing.centroiders.brightest_pixel", [("img", ["img2d", "img3d"])], lambda r, z: {"threshold": r.choice([0.1, 0.3, 0.5])},
   lambda f, A, S: f(A["img"], S["threshold"]),
   batch={"param": "img", "cat": "img3d", "item": lambda res, k: res[:, k]})
-E("aotools.image_processing.centroiders.quadCell", [("img", ["img2d", "img3d"])], None, lambda f, A, S: f(A["img"][..., :2, :2]),
+E("aotools.image_processing.centroiders.quadCell", [("img", ["img2d", "img3d", "cplx2d", "cplx3d"])], None, lambda f, A, S: f(A["img"][..., :2, :2]),
   batch={"param": "img", "cat": "img3d", "item": lambda res, k: res[:, k]})
-E("aotools.image_processing.centroiders.correlation_centroid", [("im", ["img3d", "img2d"]), ("ref", ["img2d"])],
+E("aotools.image_processing.centroiders.correlation_centroid", [("im", ["img3d", "img2d", "cplx3d", "cplx2d"]), ("ref", ["img2d", "cplx2d"])],
   lambda r, z: {"threshold": r.choice([0.0, 0.0, 0.3]), "padding": r.choice([1, 2])},
   lambda f, A, S: f(A["im"], A["ref"], S["threshold"], S["padding"]),
   batch={"param": "im", "cat": "img3d", "item": lambda res, k: res[:, k], "item_res": lambda res: res[:, 0]})
-E("aotools.image_processing.centroiders.cross_correlate", [("x", ["img2d", "mask2d"]), ("y", ["img2d"])], lambda r, z: {"padding": r.choice([1, 2])},
+E("aotools.image_processing.centroiders.cross_correlate", [("x", ["img2d", "mask2d", "cplx2d"]), ("y", ["img2d", "cplx2d"])], lambda r, z: {"padding": r.choice([1, 2])},
   lambda f, A, S: f(A["x"], A["y"], S["padding"]))
-E("aotools.image_processing.contrast.image_contrast", [("image", ["img2d", "img3d"])], None, lambda f, A, S: f(A["image"]))
-E("aotools.image_processing.contrast.rms_contrast", [("image", ["img2d", "img3d"])], None, lambda f, A, S: f(A["image"]))
-E("aotools.image_processing.psf.azimuthal_average", [("data", ["img2d", "mask2d"])], None, lambda f, A, S: f(A["data"]))
-E("aotools.image_processing.psf.encircled_energy", [("data", ["img2d"])],
+E("aotools.image_processing.contrast.image_contrast", [("image", ["img2d", "img3d", "mask2d"])], None, lambda f, A, S: f(A["image"]))
+E("aotools.image_processing.contrast.rms_contrast", [("image", ["img2d", "img3d", "mask2d", "cplx2d"])], None, lambda f, A, S: f(A["image"]))
+E("aotools.image_processing.psf.azimuthal_average", [("data", ["img2d", "mask2d", "cplx2d"])], None, lambda f, A, S: f(A["data"]))
+E("aotools.image_processing.psf.encircled_energy", [("data", ["img2d", "mask2d"])],
   lambda r, z: {"fraction": r.choice([0.5, 0.8]), "center": r.choice([None, [3, 3]]), "d": r.choice([True, False])},
   lambda f, A, S: f(A["data"], S["fraction"], S["center"], S["d"]))
 
 # ---- interpolation ------------------------------------------------------------------------------------------------------
-E("aotools.interpolation.binImgs", [("data", ["img2d", "img3d", "mask2d"])], lambda r, z: {"n": 2}, lambda f, A, S: f(A["data"], S["n"]),
+E("aotools.interpolation.binImgs", [("data", ["img2d", "img3d", "mask2d", "cplx2d", "cplx3d"])], lambda r, z: {"n": 2}, lambda f, A, S: f(A["data"], S["n"]),
   batch={"param": "data", "cat": "img3d", "item": lambda res, k: res[k]})
 E("aotools.interpolation.zoom", [("array", ["img2d", "cplx2d"])], lambda r, z: {"size": r.choice([12, [10, 14]]), "order": r.choice([1, 3])},
   lambda f, A, S: f(A["array"], S["size"], S["order"]), note="raises on this image (scipy.interpolate.interp2d is gone)")
@@ -180,9 +180,9 @@ def _kol(f, A, S):
 
 
 E("aotools.turbulence.infinitephasescreen.PhaseScreenVonKarman", [],
-  lambda r, z: {"nx": r.choice([6, 9]), "seed": r.choice([0, 3, 99]), "k": r.choice([1, 2]), "rows": r.randint(0, 3)}, _vk)
+  lambda r, z: {"nx": r.choice([6, 9]), "seed": r.choice([0, 3, 99]), "k": r.choice([1, 2]), "rows": r.randint(0, 3)}, _vk, weight=3.0)
 E("aotools.turbulence.infinitephasescreen.PhaseScreenKolmogorov", [],
-  lambda r, z: {"nx": r.choice([5, 7]), "seed": r.choice([0, 3, 99]), "k": r.choice([1, 2]), "rows": r.randint(0, 3)}, _kol)
+  lambda r, z: {"nx": r.choice([5, 7]), "seed": r.choice([0, 3, 99]), "k": r.choice([1, 2]), "rows": r.randint(0, 3)}, _kol, weight=3.0)
 E("aotools.turbulence.turb.phase_covariance", [("r", ["vec_pos", "img2d", "r32", "vec_inc"])], lambda r, z: {"r0": 0.15, "L0": r.choice([10.0, 25.0])},
   lambda f, A, S: f(A["r"], S["r0"], S["L0"]))
 
@@ -196,7 +196,7 @@ E("aotools.turbulence.profile_compression.GCTM", [("h", ["vec_inc"]), ("p", ["ve
   lambda f, A, S: f(A["h"], A["p"] * 1e-15, S["L"]))
 
 # ---- turbulence: slope covariance ----------------------------------------------------------------------------------------------
-E("aotools.turbulence.slopecovariance.calculate_structure_function", [("phase", ["img2d", "mask2d"])],
+E("aotools.turbulence.slopecovariance.calculate_structure_function", [("phase", ["img2d", "mask2d", "cplx2d"])],
   lambda r, z: {"n": r.choice([None, 3]), "step": r.choice([None, 1, 2])}, lambda f, A, S: f(A["phase"], S["n"], S["step"]))
 E("aotools.turbulence.slopecovariance.calculate_wfs_seperations", [("p1", ["pos"]), ("p2", ["pos"])], None,
   lambda f, A, S: f(len(A["p1"]), len(A["p2"]), A["p1"], A["p2"]))
@@ -226,10 +226,10 @@ def _covmat(f, A, S):
 
 E("aotools.turbulence.slopecovariance.CovarianceMatrix",
   [("m1", ["mask2d"]), ("m2", ["mask2d"]), ("diam", ["vec_pos"]), ("gs", ["pos"]), ("wl", ["vec_pos"]), ("alt", ["vec_inc"]), ("r0s", ["vec_pos"]), ("L0s", ["vec_pos"])],
-  lambda r, z: {"threads": 1, "cond": r.choice([0, 1e-3])}, _covmat)
+  lambda r, z: {"threads": r.choice([1, 1, 2, 3]), "cond": r.choice([0, 1e-3])}, _covmat, weight=5.0)
 
 # ---- turbulence: temporal power spectra ---------------------------------------------------------------------------------------
-E("aotools.turbulence.temporal_ps.calc_slope_temporalps", [("s", ["img2d", "img3d"])], None, lambda f, A, S: f(A["s"]),
+E("aotools.turbulence.temporal_ps.calc_slope_temporalps", [("s", ["img2d", "img3d", "cplx2d"])], None, lambda f, A, S: f(A["s"]),
   batch={"param": "s", "cat": "img3d", "item": lambda res, k: [res[0][k], res[1][k]]})
 E("aotools.turbulence.temporal_ps.get_tps_time_axis", [], lambda r, z: {"rate": r.choice([100.0, 500.0]), "n": r.choice([16, 33])},
   lambda f, A, S: f(S["rate"], S["n"]))
